@@ -46,3 +46,24 @@ PROPS['C03'] = {
     'outside': ['panicking paths (C04/C05, engine M)', 'N > 8'],
     'assumptions': ['f + b <= N', 'composition: the only state between two operations is a set of fully-owned arrays and iterators owning [front, back) - stated in DESIGN.md C03'],
 }
+
+PROPS['C05'] = {
+    'kani': {
+        'quick': [krun(['c05::q::'], timeout=600, bounds='N in {0,1,3,5}; (front,back) and the skip count symbolic (any usize); nth and nth_back')],
+        'thorough': [krun(['c05::'], timeout=1800, bounds='N in 0..=8')],
+    },
+    'functions': ['GenericArrayIter::{nth,nth_back}'],
+    'bounds': 'K observation harness: N <= 5 (thorough 8), position and skip count symbolic. The panicking paths themselves are decided by M.',
+    'outside': ['actual unwinding (K has panic=abort): engine M'],
+    'assumptions': ['f + b <= N'],
+}
+PROPS['C04'] = {
+    'kani': {
+        'quick': [krun(['c04::q::'], timeout=600, bounds='N in {0,1,3,4}; guard position p symbolic in 0..=N; ArrayBuilder, IntrusiveArrayBuilder, ArrayConsumer')],
+        'thorough': [krun(['c04::'], timeout=1800, bounds='N in 0..=5 and 8')],
+    },
+    'functions': ['ArrayBuilder::drop', 'IntrusiveArrayBuilder::drop', 'ArrayConsumer::drop', 'iter_position'],
+    'bounds': 'K: drop of the three guards at every position p <= N <= 4 (thorough 8). The panicking paths are decided by M.',
+    'outside': ['actual unwinding (K has panic=abort): engine M'],
+    'assumptions': [],
+}
